@@ -55,7 +55,8 @@ def gen_pool(rng, worm_tbl):
             if e['pa'][1] == 'deg':
                 e['pa'] = [row[0], 'deg']
             e['pa_deg'] = row[0]
-            hx = rng.choice([rng.uniform(1, row[1] - 0.1), rng.uniform(1, 8), 0.0 if rng.random() < 0.1 else rng.uniform(2, row[1] - 0.1)])
+            hx = rng.choice([rng.uniform(1, row[1] - 0.1), rng.uniform(1, 8), 0.0 if rng.random() < 0.1 else rng.uniform(2, row[1] - 0.1),
+                             rng.uniform(max(1, row[1] - 6), row[1] - 0.05)])      # steep worms: with high friction the worm-driving efficiency goes negative
             e['helix'] = gen.in_unit(rng, 'Angle', math.radians(hx), True)
             e['helix_deg'] = hx
             if t == 'wormgear':
@@ -123,7 +124,7 @@ def gen_decls(rng, pool):
             ds.append(['gear', rng.choice(src), rng.choice(src), eta])
         else:
             src = list(range(n)) if wild or len(wormish) < 2 else wormish
-            f = rng.choice([rng.uniform(0, 0.6), 1.0, 1.3, -0.2, 0]) if rng.random() < 0.3 else rng.uniform(0, 0.6)
+            f = rng.choice([rng.uniform(0, 0.6), 1.0, 1.3, -0.2, 0, rng.uniform(0.6, 1), rng.uniform(0.8, 1)]) if rng.random() < 0.4 else rng.uniform(0, 0.6)
             ds.append(['worm', rng.choice(src), rng.choice(src), f])
     return ds
 
@@ -452,6 +453,35 @@ def gen_chain_case(rng, tbl):
     return {'t': 'rel', 'pool': pool, 'decls': decls}
 
 
+def worm_edge_case(rng, tbl):
+    """worm matings around the limits of the efficiency range: friction near cos(alpha)/tan(beta) (worm drives:
+    efficiency changes sign) or cos(alpha)*tan(beta) (wheel drives; also the self-locking criterion), steep and flat worms"""
+    steepest = max(tbl, key=lambda r: r[1])      # only there can cos(alpha)/tan(beta) drop below 1
+    row = steepest if rng.random() < 0.4 else rng.choice(tbl)
+    hx = rng.choice([rng.uniform(max(1, row[1] - 8), row[1] - 0.05), rng.uniform(max(1, row[1] - 4), row[1] - 0.05), rng.uniform(1, 6),
+                     rng.uniform(1, row[1] - 0.05)])
+    pa = [row[0], 'deg'] if rng.random() < 0.7 else gen.in_unit(rng, 'Angle', math.radians(row[0]), True)
+    if pa[1] == 'deg':
+        pa = [row[0], 'deg']
+    helix = gen.in_unit(rng, 'Angle', math.radians(hx), True)
+    pool = [{'type': 'motor', 'name': 'n0'},
+            {'type': 'wormgear', 'name': 'n1', 'pa': list(pa), 'pa_deg': row[0], 'helix': list(helix), 'helix_deg': hx,
+             'starts': rng.randint(1, 4), 'd': None},
+            {'type': 'wormwheel', 'name': 'n2', 'z': rng.randint(10, 90), 'module': None, 'pa': list(pa), 'pa_deg': row[0],
+             'helix': list(helix), 'helix_deg': hx, 'fw': None}]
+    cosA, tanB = math.cos(math.radians(row[0])), math.tan(math.radians(hx))
+    decls = [['joint', 0, 1]] if rng.random() < 0.5 else []
+    calls = []
+    for m_, s_, crit in ((1, 2, cosA / tanB), (2, 1, cosA * tanB), (1, 2, cosA * tanB)):
+        for side in (1, -1):
+            delta = rng.choice([rng.uniform(0.01, 0.4), rng.uniform(1e-6, 1e-3)])
+            f = min(max(crit * (1 + side * delta), 0.0), rng.choice([1.0, 1.0, 1.2]))
+            calls.append(['worm', m_, s_, f])
+    rng.shuffle(calls)
+    decls += calls[:rng.randint(3, 6)]
+    return {'t': 'rel', 'pool': pool, 'decls': decls}
+
+
 def worm_tbl():
     from harness.gears_h import read_csv
     return read_csv('worm_gear_and_wheel_data.csv')
@@ -461,7 +491,11 @@ def run_props(ctx, props, quick=300, thorough=12000):
     rng = ctx.rng
     tbl = worm_tbl()
     for _ in range(ctx.budget(quick, thorough) * ctx.boost):
-        if rng.random() < 0.65:
+        r = rng.random()
+        if r < 0.15:
+            case = worm_edge_case(rng, tbl)
+            ctx.count('stream worm efficiency limits')
+        elif r < 0.65:
             case = gen_chain_case(rng, tbl)
             ctx.count('stream mostly-valid chain')
         else:
@@ -472,7 +506,8 @@ def run_props(ctx, props, quick=300, thorough=12000):
     ctx.rule = ('pools of 3-9 elements of all six kinds (random teeth, modules, helix angles, the four worm pressure angles in '
                 'random units, duplicate names now and then) and sequences of 3-12 declaration calls with compatible and '
                 'incompatible pairs, efficiencies / friction coefficients in and out of range (a mostly-valid chain-building stream '
-                'with interleaved failing calls and re-routing, plus a random / malformed stream); every element is snapshotted '
+                'with interleaved failing calls and re-routing, a random / malformed stream, and a stream of worm matings with the friction '
+                'coefficient around the limits of the efficiency range); every element is snapshotted '
                 'before and after every call; then every motor of the pool is assembled; non-trivial = at least 3 calls')
 
 
